@@ -150,6 +150,11 @@ def run(ctx: Ctx) -> None:
     ok = len(cs) == 1 and norm(arg(cs[0], 0)) == "event" and len(sd) == 1 and "Data(stream_id=self.stream_id, data=data)" in norm(sd[0]) and "send()" in provenance(ast.Name(id="data", ctx=ast.Load()), sw).ops
     ctx.check("C10.R7", f"{M}:WSStream._send_wsproto_event", "send(Data(connection.send(event)))", ok, "serialised frames must be forwarded unmodified", sw)
 
+    from ..core import Alias
+    from . import c09, c13
+
+    c13.run(Alias(ctx, "C10.R8", "HTTP/1.1 carrier: bytes that followed the upgrade request are not lost and every buffered byte is passed through once (C13.R7)", only={"C13.R7"}))
+    c09.run(Alias(ctx, "C10.R9", "HTTP/2 carrier: frames are queued in order on the stream's own buffer and the sender is woken before a blocking push (C09.R3/R9)", only={"C09.R3", "C09.R9"}))
     ctx.assume("not decided: fragment reassembly, UTF-8 validation/splitting, permessage-deflate, ping payload echo (all inside wsproto); byte equality")
 
 
